@@ -71,10 +71,10 @@ def step(ctx, case):
         from core import wl
         for k, ci in enumerate(arrivals):
             # messages the connection-naming code looks at (and may choke on) are messages like any other
-            kind = ctx.choose(['plain', 'title', 'title-empty', 'app-id', 'app-id-not-a-string', 'layer-surface-short', 'unknown-object'], 'kind%d' % k) if k == 0 else 'plain'
+            kind = ctx.choose(['plain', 'title', 'title-empty', 'app-id', 'app-id-not-a-string', 'layer-surface-short', 'unknown-object', 'untyped-new-id'], 'kind%d' % k) if k == 0 else 'plain'
             name, args = {'plain': ('sync', ()), 'title': ('set_title', (wl.Arg.String('a title'),)), 'title-empty': ('set_title', (wl.Arg.String(''),)),
                           'app-id': ('set_app_id', (wl.Arg.String('org.x.App'),)), 'app-id-not-a-string': ('set_app_id', (wl.Arg.Int(3),)),
-                          'layer-surface-short': ('get_layer_surface', (wl.Arg.Int(1),)), 'unknown-object': ('poke', ())}[kind]
+                          'layer-surface-short': ('get_layer_surface', (wl.Arg.Int(1),)), 'unknown-object': ('poke', ()), 'untyped-new-id': ('make', (wl.Arg.Object(wl.UnresolvedObject(42, None), True),))}[kind]
             arrived.append((ctl.add_message(w, ci, name=name, args=args, target_id=1 if kind != 'unknown-object' else 99), ci))
         shown = ctl.msg_lines(w.out.items[n1:])
         exp_order = [m.tag for m, ci in arrived]
